@@ -586,6 +586,9 @@ fn strip(inp: &[u128]) -> Vec<u128> {
 
 /// returns (emitted input, output, signature, oracle verdict)
 pub fn exec(inp: &[u128]) -> (Vec<u128>, Vec<u128>, String, String) {
+    if matches!(inp.first(), Some(2 | 3)) {
+        return crate::watch_size::exec(inp);
+    }
     let inp = strip(inp);
     if inp.len() < 2 || inp[0] > 1 {
         return (inp, vec![98], "malformed".into(), "ok".into());
@@ -816,6 +819,11 @@ pub fn gen(r: &mut Rng, i: usize) -> Vec<Vec<u128>> {
     let mut cases = vec![gen_case(r, 0)];
     if i % 12 == 5 {
         cases.push(gen_case(r, 1));
+    }
+    // every 4th case additionally runs a program with item size limits (watch_size.rs: mode 2 compared
+    // with Run/RunWatchSize.v, mode 3 oracle only)
+    if i % 4 == 2 {
+        cases.push(crate::watch_size::gen_case(r));
     }
     cases
 }
